@@ -474,12 +474,11 @@ func (u *Unit) checkExit(k int, ex Exit, pos token.Pos) {
 }
 
 // checkFrame: everything the body wrote must be covered by the modifies clause.
-func (u *Unit) checkFrame(st *State, env *SpecEnv, suffix string, pos token.Pos) {
-	ct := u.contract
-	allowed := map[string][]string{} // heap key -> allowed refs ("*" = any)
-	eenv := *env
-	eenv.st = u.entry
-	for _, m := range ct.Modifies {
+// allowedTargets resolves modifies targets into heap key -> allowed references ("*" = any).
+func (u *Unit) allowedTargets(mods []string, eenvp *SpecEnv, pos token.Pos) map[string][]string {
+	allowed := map[string][]string{}
+	eenv := *eenvp
+	for _, m := range mods {
 		if m == "heap" {
 			allowed["*"] = []string{"*"}
 			continue
@@ -544,10 +543,22 @@ func (u *Unit) checkFrame(st *State, env *SpecEnv, suffix string, pos token.Pos)
 			}
 		}()
 	}
+	return allowed
+}
+
+func (u *Unit) checkFrame(st *State, env *SpecEnv, suffix string, pos token.Pos) {
+	ct := u.contract
+	eenv := *env
+	eenv.st = u.entry
+	allowed := u.allowedTargets(ct.Modifies, &eenv, pos)
 	if _, any := allowed["*"]; any {
 		return
 	}
-	entryAlloc := u.entry.heap[allocKey]
+	if st.epoch != u.entry.epoch {
+		u.oblige("frame", "heap"+suffix, pos, st, "false", "the body calls code that may modify the whole heap, but modifies does not say `heap`")
+		return
+	}
+	entryAlloc := u.alloc(u.entry)
 	var keys []string
 	for k := range st.heap {
 		keys = append(keys, k)
@@ -560,7 +571,7 @@ func (u *Unit) checkFrame(st *State, env *SpecEnv, suffix string, pos token.Pos)
 		end := st.heap[k]
 		start, ok := u.entry.heap[k]
 		if !ok {
-			start = k + "$0"
+			start = u.heapGet(u.entry, k, u.heapSorts[k])
 		}
 		if end == start {
 			continue
@@ -792,4 +803,48 @@ func writeFile(path, content string) error {
 		return err
 	}
 	return os.WriteFile(path, []byte(content), 0o644)
+}
+
+// frameFormula: every reference allocated in allocTerm and not in refs has the same content in start and end.
+func (u *Unit) frameFormula(start, end, allocTerm string, refs []string) string {
+	u.nfresh++
+	r := fmt.Sprintf("r!%d", u.nfresh)
+	var ex []string
+	for _, a := range refs {
+		ex = append(ex, sNot(sEq(r, a)))
+	}
+	cond := sAnd(append([]string{app("select", allocTerm, r)}, ex...)...)
+	return fmt.Sprintf("(forall ((%s Int)) (! (=> %s (= (select %s %s) (select %s %s))) :pattern ((select %s %s))))", r, cond, end, r, start, r, end, r)
+}
+
+// loopFrame assumes (check=false) or checks (check=true) the loop's `modifies` clause for the
+// heap keys the loop havocs: relative to the state pre at loop entry.
+func (u *Unit) loopFrame(ls *LoopSpec, n int, pre, cur *State, mods loopMods, env *SpecEnv, pos token.Pos, check bool) {
+	if len(ls.Modifies) == 0 || mods.all {
+		return
+	}
+	penv := *env
+	penv.st = pre
+	allowed := u.allowedTargets(ls.Modifies, &penv, pos)
+	if _, any := allowed["*"]; any {
+		return
+	}
+	preAlloc := u.alloc(pre)
+	for _, k := range mods.heap {
+		if k == allocKey || strings.HasPrefix(k, "G_") {
+			continue
+		}
+		refs := allowed[k]
+		if len(refs) == 1 && refs[0] == "*" {
+			continue
+		}
+		start := u.heapGet(pre, k, u.heapSorts[k])
+		end := u.heapGet(cur, k, u.heapSorts[k])
+		f := u.frameFormula(start, end, preAlloc, refs)
+		if check {
+			u.oblige("inv.keep", fmt.Sprintf("loop%d.frame.%s", n, strings.TrimPrefix(k, "H_")), pos, cur, f, "loop modifies only the listed locations of "+k)
+		} else {
+			cur.assume(f)
+		}
+	}
 }
